@@ -44,7 +44,7 @@ def c10_scenarios(tier, seed):
         for seq in itertools.product(small, repeat=n):
             scs.append({"kind": "alloc", "id": f"e{k}", "scripts": [list(seq)], "schedule": {"source": "tape"}})
             k += 1
-    for j in range(150 if tier == "quick" else 1500):
+    for j in range(400 if tier == "quick" else 3000):
         threads = rnd.choice([1, 1, 2, 3, 4, 8])
         n = rnd.choice([3, 10, 30]) if tier == "quick" else rnd.choice([3, 10, 60, 300])
         scripts = [[rand_op(rnd) for _ in range(n)] for _ in range(threads)]
@@ -62,7 +62,7 @@ def c09_scenarios(tier, seed):
     rnd = random.Random(seed * 911 + 2)
     scs = []
     aligns = [1, 2, 4, 8, 16, 64, 4096]
-    for j in range(120 if tier == "quick" else 1500):
+    for j in range(300 if tier == "quick" else 3000):
         scripts = []
         for _ in range(rnd.choice([1, 1, 2, 3])):
             ops = []
